@@ -273,6 +273,50 @@ theorem memoRun_eq_map (compute : ρ → τ) (keyOf : ρ → κ) (evict : List (
       · cases h1; exact hkey r r' hr'.symm
       · exact hvalid k v (hev _ _ h1) r' hr'
 
+/-- L7: with refusals in the history (requests `dpss_windows` rejects), a refused request leaves the memo unchanged and every
+accepted request is still answered like recomputation -/
+theorem memoRunE_eq_spec {κ τ : Type} [DecidableEq κ] (compute : TReq → τ) (keyOf : TReq → κ)
+    (evict : List (κ × τ) → List (κ × τ))
+    (hkey : ∀ r r', keyOf r = keyOf r' → compute r = compute r')
+    (hev : ∀ m e, e ∈ evict m → e ∈ m)
+    (memo : List (κ × τ)) (hvalid : ∀ k v, (k, v) ∈ memo → ∀ r, keyOf r = k → v = compute r)
+    (h : List TReq) : memoRunE compute keyOf evict memo h = specTapersE compute h := by
+  induction h generalizing memo with
+  | nil => rfl
+  | cons r h ih =>
+    have ih' : ∀ memo', (∀ k v, (k, v) ∈ memo' → ∀ r, keyOf r = k → v = compute r) →
+        memoRunE compute keyOf evict memo' h = List.map (fun r => if r.refused = true then none else some (compute r)) h :=
+      fun memo' hv => ih memo' hv
+    cases hr : r.refused with
+    | true =>
+      simp only [memoRunE, specTapersE, List.map_cons, hr, if_true]
+      rw [ih' memo hvalid]
+    | false =>
+      simp only [memoRunE, specTapersE, List.map_cons, hr, Bool.false_eq_true, if_false]
+      unfold memoStep
+      cases hl : mlook (keyOf r) memo with
+      | some v =>
+        simp only
+        rw [hvalid _ _ (mlook_mem hl) r rfl, ih' memo hvalid]
+      | none =>
+        simp only
+        rw [ih' _ ?_]
+        intro k v hm r' hr'
+        rcases List.mem_cons.1 hm with h1 | h1
+        · cases h1; exact hkey r r' hr'.symm
+        · exact hvalid k v (hev _ _ h1) r' hr'
+
+theorem memoRunE_fullkey {τ : Type} (compute : TReq → τ) (h : List TReq) :
+    memoRunE compute id evict16 [] h = specTapersE compute h :=
+  memoRunE_eq_spec compute id evict16 (fun _ _ e => by cases e; rfl)
+    (fun m e he => List.mem_of_mem_take he) [] (by simp) h
+
+/-- a refused request changes nothing: dropping it from the history leaves all other answers as they were -/
+theorem refused_request_leaves_provider_unchanged {κ τ : Type} [DecidableEq κ] (compute : TReq → τ) (keyOf : TReq → κ)
+    (evict : List (κ × τ) → List (κ × τ)) (memo : List (κ × τ)) (r : TReq) (hr : r.refused = true) (h : List TReq) :
+    memoRunE compute keyOf evict memo (r :: h) = none :: memoRunE compute keyOf evict memo h := by
+  simp [memoRunE, hr]
+
 /-- the sound instance run by the driver: key = the whole request, 16-entry eviction, empty start -/
 theorem memoRun_fullkey (compute : ρ → τ) [DecidableEq ρ] (h : List ρ) :
     memoRun compute id evict16 [] h = specTapers compute h :=
